@@ -57,7 +57,7 @@ def mt_backpressure(ctx):
         ev += 1
         short = " ".join(ln.split()[:2]) + " <base> " + " ".join(ln.split()[3:])
         res = o[0] if o else "<no output rc=%s>" % rc
-        rep = dict(kind="monitor", op=ln[:400000], result=res[:400], model=mline, stderr=(err or "")[-500:])
+        rep = dict(kind="monitor", op=ln[:40000000], result=res[:400], model=mline, stderr=(err or "")[-500:])
         desc = "workers=%d, %d descriptors, sections of %d bytes, %d bytes fed in %d-byte writes with output rooms %s while %d bytes are withheld" % (
             m["nbw"], m["slots"], m["T"], m["total"], m["piece"], m["trickle"], m["hold"])
         if res.startswith("err"):
@@ -92,7 +92,7 @@ def mt_backpressure(ctx):
         ev += 1
         if lr != "ok %d %s" % (m["total"], kv["in"]):
             ctx.violation("independent decoder disagrees on a frame emitted by multithreaded compression under back-pressure: %r, expected ok %d %s" % (lr, m["total"], kv["in"]),
-                          dict(kind="tie", op=ln[:400000], correspondence="Model/Frame vs ZSTD_decompress"), no_input=True)
+                          dict(kind="tie", op=ln[:40000000], correspondence="Model/Frame vs ZSTD_decompress"), no_input=True)
     return dict(evaluations=ev, histories=len(lines), lean_decoded=len(lean_jobs),
                 sample=dict(op=" ".join(lines[0].split()[:2]) + " <base> " + " ".join(lines[0].split()[3:9]), result=(outs[0][1][0][:200] if outs[0][1] else ""), model=mm[0]))
 
@@ -124,7 +124,7 @@ def correspondence(ctx):
     dl, ml, wl, idx = [], [], [], []
     for c, ln, o in zip(cases, lines, outc):
         ev += 1
-        rep = dict(kind="monitor", op=ln[:400000], result=o[:300])
+        rep = dict(kind="monitor", op=ln[:40000000], result=o[:300])
         if o.startswith("err"):
             if "parameter" in o:
                 continue
@@ -140,7 +140,7 @@ def correspondence(ctx):
     want = frames.parallel(lambda ch: frames.run_lines(exe, ch)[1], frames.split_chunks(wl, 16))
     for (c, ln), a, b, w in zip(idx, cres, mres, want):
         ev += 2
-        rep = dict(kind="monitor", op=ln[:400000], frame=c["frame"][:300000])
+        rep = dict(kind="monitor", op=ln[:40000000], frame=c["frame"][:300000])
         if a != w:
             ctx.violation("bytes emitted by streaming compression do not decode to the input consumed: library decoder %r, expected %r" % (a, w), rep)
         elif b != w:
@@ -208,7 +208,7 @@ def correspondence(ctx):
         tr, res = tout[2 * k], tout[2 * k + 1]
         f, c, fi = tmeta[k]
         ev += 1
-        rep = dict(kind="monitor", op=tl[k][:400000], result=res[:300], trace=tr[:2000])
+        rep = dict(kind="monitor", op=tl[k][:40000000], result=res[:300], trace=tr[:2000])
         if " ".join(res.split()[:3]) != want2[k]:
             ctx.violation("streaming decompression under a segmentation differs from single-call decompression: %r vs %r" % (res[:80], want2[k]), rep)
             continue
@@ -218,7 +218,7 @@ def correspondence(ctx):
         ev += 1
         if not r_.startswith("ok"):
             ctx.violation("ZSTD_decompressStream history is not a run of the specification LTS (completion must be reported exactly at frame ends, positions within buffers): %s" % r_,
-                          dict(kind="monitor", op=tl[k][:400000], spec_verdict=r_, trace=tout[2 * k][:3000], frame_ends=tmeta[k][2]))
+                          dict(kind="monitor", op=tl[k][:40000000], spec_verdict=r_, trace=tout[2 * k][:3000], frame_ends=tmeta[k][2]))
         if len(ctx.violations) >= 8:
             break
     # a stable-input session abandoned after a call whose input was deferred, then a reset and a fresh frame on the same context (sanitizer build)
@@ -227,10 +227,10 @@ def correspondence(ctx):
     ev += len(sl)
     if rc_ != 0 or len(so_) != len(sl):
         ctx.violation("sanitizer build aborted after an abandoned stable-input session and a reset: %s :: %s" % (sl[min(len(so_), len(sl) - 1)][:60], (se_ or "")[-500:]),
-                      dict(kind="monitor", op=sl[min(len(so_), len(sl) - 1)][:400000], stderr=(se_ or "")[-3000:]))
+                      dict(kind="monitor", op=sl[min(len(so_), len(sl) - 1)][:40000000], stderr=(se_ or "")[-3000:]))
     for ln_, o_ in zip(sl, so_):
         if o_ != "ok":
-            ctx.violation("after an abandoned stable-input session and a reset, ZSTD_compress2 on the same context: %s" % o_, dict(kind="monitor", op=ln_[:400000], result=o_))
+            ctx.violation("after an abandoned stable-input session and a reset, ZSTD_compress2 on the same context: %s" % o_, dict(kind="monitor", op=ln_[:40000000], result=o_))
     # deterministic model of ZSTD_decompressStream / ZSTD_decompressContinue (Model/DStream.lean): every call of every history must give the
     # same (consumed, produced, return value - error class or exact input hint) as the real code
     import ent_dstream
